@@ -151,13 +151,13 @@ func c44Info(key string, crt cert.Certificate) c44CertInfo {
 }
 
 type c44World struct {
-	c       *mc.Check
-	cfg     c44Cfg
-	net     *vnet
-	lh      *vnode
-	peers   map[int]*vnode
-	self    c44CertInfo
-	byFP    map[string]c44CertInfo
+	c     *mc.Check
+	cfg   c44Cfg
+	net   *vnet
+	lh    *vnode
+	peers map[int]*vnode
+	self  c44CertInfo
+	byFP  map[string]c44CertInfo
 	// oracle bookkeeping
 	enabled   bool
 	seenHI    map[string]bool // fingerprint/localIndex of hostinfos already counted
@@ -721,7 +721,7 @@ func (w *c44World) judge(q c44Query, st *c44Stats, stateDesc func() map[string]a
 					class = "query type other than A/AAAA"
 				}
 			}
-			if len(q.Qs) > 1 {
+			if len(q.Qs) > 1 && class == "address query (A/AAAA)" {
 				class += ", several questions"
 			}
 			viol("NXDOMAIN for a known name: "+class, map[string]any{"types": tys})
@@ -871,7 +871,7 @@ func TestVerifC44(t *testing.T) {
 			MaxDepth: d,
 			Workers:  1, // virtual clock and crypto/rand stream are process-global
 			Label:    func(e c44Ev) string { return e.String() },
-			Stop:     func() bool { return c.OutOfTime() || c.Violations() > 2000 },
+			Stop:     func() bool { return c.OutOfTime() }, // keeps exploring past violations: one signature = one line
 			Run: func(hist []c44Ev) (string, []c44Ev) {
 				w := build(cfg, hist)
 				defer w.close()
@@ -884,6 +884,19 @@ func TestVerifC44(t *testing.T) {
 					// the query product on this state, in parallel (the handler is read-only and takes its own locks)
 					desc := w.dnsState()
 					descFn := func() map[string]any { return desc }
+					// state-guided questions: every name the responder currently holds a record for, as A and AAAA
+					queries := queries[:len(queries):len(queries)]
+					held := map[string]bool{}
+					for _, mp := range []string{"dnsMap4", "dnsMap6"} {
+						for name := range desc[mp].(map[string]string) {
+							held[name] = true
+						}
+					}
+					for name := range held {
+						for _, ty := range []uint16{dns.TypeA, dns.TypeAAAA} {
+							queries = append(queries, c44Query{0, dns.OpcodeQuery, []c44Q{{name, ty}}}, c44Query{7, dns.OpcodeQuery, []c44Q{{strings.ToUpper(name), ty}}})
+						}
+					}
 					var wg sync.WaitGroup
 					var mu sync.Mutex
 					next := 0
